@@ -8,8 +8,8 @@ import json
 from fractions import Fraction
 from vlib.core import SplitMix
 
-KEYS = ["zero-availability-mishandled", "comm-rate-capped-by-initial-bandwidth",
-        "latency-change-during-latency-phase-stalls-comm", "cpu-ti-profile-misapplied"]
+# (a third class, latency-change-during-latency-phase-stalls-comm, is fixed: see NOTES.md and corpus.txt)
+KEYS = ["zero-availability-mishandled", "comm-rate-capped-by-initial-bandwidth", "cpu-ti-profile-misapplied"]
 
 
 def dy(k, den=16):
